@@ -177,3 +177,47 @@ func VerifC11DropRaw() {
 	}
 	verifCover("end")
 }
+
+// VerifC11Backpressure: drop-raw stays exact under back-pressure. The drop-raw aggregation's worker is stuck
+// handing over an aggregate (nobody takes its output yet) and its input buffer (1 slot) is full when a further
+// matching raw metric arrives: that metric must still be withheld from the routes and from later aggregations
+// (the hand-over may wait, it may not fall through). The stuck hand-over is released afterwards.
+func VerifC11Backpressure() {
+	aggregator.InitMetrics()
+	t := verifNewTable(m20.NoneLegacy, m20.NoneM20, false)
+	all, _ := matcher.New("", "", "", "", "", "")
+	r := &verifCapRoute{key: "r", m: all}
+	t.AddRoute(r)
+	m1, _ := matcher.New("", "", "", "", "^raw", "")
+	out := make(chan []byte)
+	tick := make(chan time.Time)
+	a1, err := aggregator.NewMocked("sum", m1, "o1", verifBool("cache"), 10, 20, true, out, 1, verifNowFixed, tick)
+	if err != nil {
+		panic(err)
+	}
+	m2, _ := matcher.New("", "", "", "", ".*", "")
+	a2, _ := aggregator.NewMocked("sum", m2, "o2", false, 10, 20, false, make(chan []byte, 4), 4, verifNowFixed, make(chan time.Time))
+	t.AddAggregator(a1)
+	t.AddAggregator(a2)
+	in2 := stats.Counter("unit=Metric.direction=in.aggregator=" + a2.Key)
+	c2 := in2.Count()
+	t.Dispatch([]byte("raw.a 1 1499999995"))
+	verifSettle()
+	tick <- time.Unix(1500000020, 0) // the bucket of the first point is due: the worker blocks handing the aggregate over
+	verifSettle()
+	t.Dispatch([]byte("raw.b 1 1500000005")) // fills the input buffer
+	done := make(chan bool, 1)
+	go func() {
+		t.Dispatch([]byte("raw.c 1 1500000006")) // input buffer full
+		done <- true
+	}()
+	verifSettle()
+	got := <-out // release the worker
+	verifSettle()
+	<-done
+	verifSettle()
+	verifAssert(len(got) > 0, "aggregate-emitted")
+	verifAssert(len(r.got) == 0, "consumed-raw-metric-withheld-from-routes-under-back-pressure")
+	verifAssert(in2.Count() == c2, "consumed-raw-metric-withheld-from-later-aggregation-under-back-pressure")
+	verifCover("end")
+}
